@@ -131,7 +131,24 @@ func (e *Exec) bytesToSlice(bs []*Term) SliceV {
 func (e *Exec) sliceBytes(s SliceV) []*Term {
 	out := make([]*Term, s.Len)
 	for i := range out {
-		out[i] = s.Arr.Kids[s.Off+i].V.(*Term)
+		switch v := s.Arr.Kids[s.Off+i].V.(type) {
+		case *Term:
+			out[i] = v
+		case *Opaque:
+			// a byte of a marshalled buffer (json/msgpack model): an unknown but
+			// fixed byte per buffer, so checksums over it are congruent
+			if e.opaqueBytes == nil {
+				e.opaqueBytes = map[*Opaque]*Term{}
+			}
+			t, ok := e.opaqueBytes[v]
+			if !ok {
+				t = e.newIntVar("opaque_byte", niByte)
+				e.opaqueBytes[v] = t
+			}
+			out[i] = t
+		default:
+			e.ooe("byte slice element of kind %T", v)
+		}
 	}
 	return out
 }
